@@ -194,6 +194,19 @@ pub mod verif {
     DISABLED_LOOP_SUBPASSES.store(mask, std::sync::atomic::Ordering::SeqCst);
   }
 
+  static LOOP_GUARD_OPERATOR_CORRECTED: std::sync::atomic::AtomicBool =
+    std::sync::atomic::AtomicBool::new(false);
+
+  /// Makes induction variable elimination keep (or, for a negative multiplier, reverse) the
+  /// original guard operator instead of always emitting `<`, process-wide.
+  pub fn set_loop_guard_operator_corrected(on: bool) {
+    LOOP_GUARD_OPERATOR_CORRECTED.store(on, std::sync::atomic::Ordering::SeqCst);
+  }
+
+  pub(crate) fn loop_guard_operator_corrected() -> bool {
+    LOOP_GUARD_OPERATOR_CORRECTED.load(std::sync::atomic::Ordering::SeqCst)
+  }
+
   pub(crate) fn loop_subpass_disabled(bit: u32) -> bool {
     DISABLED_LOOP_SUBPASSES.load(std::sync::atomic::Ordering::SeqCst) & bit != 0
   }
